@@ -4,6 +4,18 @@ demonstration passes on the unchanged tree and fails on the changed one; then ru
 against it (patch applied to /repo, undone afterwards) and record everything in
 /verif/seeded/<id>/meta.json."""
 import json, os, shutil, subprocess, sys, xml.etree.ElementTree as ET
+import atexit, glob
+
+# a drill runs the checks against a MUTATED /repo: the evidence files they write must not survive it
+evidence_backup = {f: open(f).read() for f in glob.glob('/verif/evidence/*.json')}
+
+
+def _restore_evidence():
+    for f, txt in evidence_backup.items():
+        open(f, 'w').write(txt)
+
+
+atexit.register(_restore_evidence)
 
 def sh(cmd, **kw):
     return subprocess.run(cmd, shell=True, capture_output=True, text=True, **kw)
